@@ -6,6 +6,8 @@ package main
 
 import (
 	"fmt"
+	"go/ast"
+	"go/constant"
 	"sort"
 	"strings"
 
@@ -31,19 +33,52 @@ func stringTable(w *World, typ string) (map[int64]string, string) {
 	}
 	out := map[int64]string{}
 	recv := fn.Params[0].Name()
+	dom, _ := w.enumDomain(fn.Params[0].Type())
 	for _, p := range paths {
-		if p.End != "ret" || len(p.Ret) != 1 || p.Ret[0].Op != "str" {
-			return nil, typ + ".String has a path that does not return a constant string"
+		if p.End != "ret" || len(p.Ret) != 1 {
+			return nil, typ + ".String has a path that does not return a string"
+		}
+		ret := p.Ret[0]
+		// table-driven: return table[receiver] with table a package-level array/slice/map literal
+		if (ret.Op == "elem" || ret.Op == "lookup") && stripConv(ret.A[1]).Op == "p" && stripConv(ret.A[1]).S == recv {
+			g := ret.A[0]
+			for g.Op == "deref" || g.Op == "sel" || g.Op == "slice" || g.Op == "addr" {
+				g = g.A[0]
+			}
+			if g.Op != "global" && g.Op != "gaddr" {
+				return nil, "UNDECIDED: " + typ + ".String indexes " + ret.A[0].Show() + ", which is not a package-level table literal"
+			}
+			tab, msg := globalStringTable(w, g.S)
+			if msg != "" {
+				return nil, "UNDECIDED: " + msg
+			}
+			set, ok := p.Sets[recv]
+			if !ok {
+				set = dom
+			}
+			for _, v := range bitsOf(set) {
+				s, ok := tab[v]
+				if !ok {
+					// out of the table: the bounds guard decides; treat as not covered by this path
+					continue
+				}
+				out[v] = s
+			}
+			continue
+		}
+		if ret.Op != "str" {
+			return nil, "UNDECIDED: " + typ + ".String has a path returning " + ret.Show() + " (neither a constant nor a package-level table entry)"
 		}
 		set, ok := p.Sets[recv]
 		if !ok {
-			return nil, typ + ".String does not case-split on its receiver"
+			// a fallback path not refined by the receiver (e.g. after a bounds test): it covers the values no other path covers
+			continue
 		}
 		for _, v := range bitsOf(set) {
-			if old, dup := out[v]; dup && old != p.Ret[0].S {
-				return nil, fmt.Sprintf("%s.String returns both %q and %q for value %d", typ, old, p.Ret[0].S, v)
+			if old, dup := out[v]; dup && old != ret.S {
+				return nil, fmt.Sprintf("%s.String returns both %q and %q for value %d", typ, old, ret.S, v)
 			}
-			out[v] = p.Ret[0].S
+			out[v] = ret.S
 		}
 	}
 	return out, ""
@@ -117,7 +152,11 @@ func ruleTabMnemonic(w *World, r *RuleResult) {
 			pos = w.Pos(fn.Pos())
 		}
 		if msg != "" {
-			r.bad(f.typ+"/String", pos, msg)
+			if strings.HasPrefix(msg, "UNDECIDED: ") {
+				r.undecided(f.typ+"/String", pos, strings.TrimPrefix(msg, "UNDECIDED: "))
+			} else {
+				r.bad(f.typ+"/String", pos, msg)
+			}
 			continue
 		}
 		names := w.EnumValues(f.typ)
@@ -594,4 +633,58 @@ func ruleTabCase(w *World, r *RuleResult) {
 		}
 	}
 	d.flush()
+}
+
+// globalStringTable evaluates a package-level `var t = [...]string{...}`,
+// `[]string{...}` or `map[Enum]string{...}` literal from the syntax tree.
+func globalStringTable(w *World, name string) (map[int64]string, string) {
+	for _, file := range w.Lib.Syntax {
+		for _, decl := range file.Decls {
+			gd, ok := decl.(*ast.GenDecl)
+			if !ok {
+				continue
+			}
+			for _, spec := range gd.Specs {
+				vs, ok := spec.(*ast.ValueSpec)
+				if !ok {
+					continue
+				}
+				for i, id := range vs.Names {
+					if id.Name != name || i >= len(vs.Values) {
+						continue
+					}
+					cl, ok := vs.Values[i].(*ast.CompositeLit)
+					if !ok {
+						return nil, "table " + name + " is not initialised by a composite literal"
+					}
+					out := map[int64]string{}
+					next := int64(0)
+					for _, el := range cl.Elts {
+						val := el
+						if kv, ok := el.(*ast.KeyValueExpr); ok {
+							tv, ok := w.Lib.TypesInfo.Types[kv.Key]
+							if !ok || tv.Value == nil {
+								return nil, "table " + name + " has a non-constant key"
+							}
+							k, ok := constant.Int64Val(tv.Value)
+							if !ok {
+								return nil, "table " + name + " has a non-integer key"
+							}
+							next = k
+							val = kv.Value
+						}
+						tv, ok := w.Lib.TypesInfo.Types[val]
+						if !ok || tv.Value == nil || tv.Value.Kind() != constant.String {
+							return nil, "table " + name + " has a non-constant entry"
+						}
+						out[next] = constant.StringVal(tv.Value)
+						next++
+					}
+					// the table must never be written (GLOBAL.ro covers writers)
+					return out, ""
+				}
+			}
+		}
+	}
+	return nil, "package-level table " + name + " not found"
 }
